@@ -433,6 +433,47 @@ pub fn c07_state<const N: usize>(recipe: &Recipe) -> Vec<Problem> {
         {
             let b = sut.bref();
             let loc = |e: &E| (e.0, sut.slot_of(e));
+            // derived iterator methods (nth, nth_back, last, count, skip, step_by, rev): whatever the
+            // crate overrides must still present the same sequence
+            let all: Vec<(u32, usize)> = (0..len).map(|r| (ids[r], occ[r])).collect();
+            for a in 0..=len {
+                for bb in a..=len {
+                    let want_r = &all[a..bb];
+                    let l = bb - a;
+                    for k in [0usize, 1, 2, l.saturating_sub(1), l, l + 1, MAXI] {
+                        let w = if k < l { Some(want_r[k]) } else { None };
+                        let g = b.range(a..bb).nth(k).map(loc);
+                        if g != w {
+                            out.push(pb(PKind::Views, format!("range({}..{}).nth({}) gives {:?} expected {:?}", a, bb, k, g, w)));
+                        }
+                        let w = if k < l { Some(want_r[l - 1 - k]) } else { None };
+                        let g = b.range(a..bb).nth_back(k).map(loc);
+                        if g != w {
+                            out.push(pb(PKind::Views, format!("range({}..{}).nth_back({}) gives {:?} expected {:?}", a, bb, k, g, w)));
+                        }
+                        if k <= l + 1 {
+                            let g: Vec<(u32, usize)> = b.range(a..bb).skip(k).map(loc).collect();
+                            let w: Vec<(u32, usize)> = want_r.iter().skip(k).copied().collect();
+                            if g != w {
+                                out.push(pb(PKind::Views, format!("range({}..{}).skip({}) gives {:?} expected {:?}", a, bb, k, g, w)));
+                            }
+                        }
+                    }
+                    if b.range(a..bb).count() != l || b.range(a..bb).last().map(loc) != want_r.last().copied() {
+                        out.push(pb(PKind::Views, format!("range({}..{}): count()/last() disagree with the sequence", a, bb)));
+                    }
+                    let g: Vec<(u32, usize)> = b.range(a..bb).step_by(2).map(loc).collect();
+                    let w: Vec<(u32, usize)> = want_r.iter().step_by(2).copied().collect();
+                    if g != w {
+                        out.push(pb(PKind::Views, format!("range({}..{}).step_by(2) gives {:?} expected {:?}", a, bb, g, w)));
+                    }
+                    let g: Vec<(u32, usize)> = b.range(a..bb).rev().map(loc).collect();
+                    let w: Vec<(u32, usize)> = want_r.iter().rev().copied().collect();
+                    if g != w {
+                        out.push(pb(PKind::Views, format!("range({}..{}).rev() gives {:?} expected {:?}", a, bb, g, w)));
+                    }
+                }
+            }
             let via_ref: Vec<(u32, usize)> = (&*b).into_iter().map(loc).collect();
             let via_iter: Vec<(u32, usize)> = b.iter().map(loc).collect();
             if via_ref != via_iter {
@@ -497,6 +538,41 @@ pub fn c07_state<const N: usize>(recipe: &Recipe) -> Vec<Problem> {
                 out.push(pb(PKind::Views, format!("iter_mut (collected simultaneously) gives {:?} expected {:?}", got, exp)));
             }
             drop(all);
+            for k in [0usize, 1, 2, len.saturating_sub(1), len, len + 1, len + 2, MAXI] {
+                let w = if k < len { Some(exp[k]) } else { None };
+                let g = b.iter_mut().nth(k).map(|e| (e.0, slot(e)));
+                if g != w {
+                    out.push(pb(PKind::Views, format!("iter_mut().nth({}) gives {:?} expected {:?}", k, g, w)));
+                }
+                let w = if k < len { Some(exp[len - 1 - k]) } else { None };
+                let g = b.iter_mut().nth_back(k).map(|e| (e.0, slot(e)));
+                if g != w {
+                    out.push(pb(PKind::Views, format!("iter_mut().nth_back({}) gives {:?} expected {:?}", k, g, w)));
+                }
+                if k <= len + 2 {
+                    let g: Vec<(u32, usize)> = b.iter_mut().skip(k).map(|e| (e.0, slot(e))).collect();
+                    let w: Vec<(u32, usize)> = exp.iter().skip(k).copied().collect();
+                    if g != w {
+                        out.push(pb(PKind::Views, format!("iter_mut().skip({}) gives {:?} expected {:?}", k, g, w)));
+                    }
+                    let g: Vec<(u32, usize)> = b.range_mut(..).skip(k).map(|e| (e.0, slot(e))).collect();
+                    if g != w {
+                        out.push(pb(PKind::Views, format!("range_mut(..).skip({}) gives {:?} expected {:?}", k, g, w)));
+                    }
+                }
+            }
+            for st in 1..=3usize {
+                let g: Vec<(u32, usize)> = b.iter_mut().step_by(st).map(|e| (e.0, slot(e))).collect();
+                let w: Vec<(u32, usize)> = exp.iter().step_by(st).copied().collect();
+                if g != w {
+                    out.push(pb(PKind::Views, format!("iter_mut().step_by({}) gives {:?} expected {:?}", st, g, w)));
+                }
+            }
+            let g: Vec<(u32, usize)> = b.iter_mut().rev().map(|e| (e.0, slot(e))).collect();
+            let w: Vec<(u32, usize)> = exp.iter().rev().copied().collect();
+            if g != w || b.iter_mut().count() != len || b.iter_mut().last().map(|e| (e.0, slot(e))) != exp.last().copied() {
+                out.push(pb(PKind::Views, "iter_mut(): rev()/count()/last() disagree with the sequence".into()));
+            }
             let (m0, m1) = b.as_mut_slices();
             let got: Vec<(u32, usize)> = m0.iter().chain(m1.iter()).map(|e| (e.0, slot(e))).collect();
             if got != exp {
